@@ -144,6 +144,10 @@ def driver_eval(lines, cls, fl):
 
 
 def canon(line, cls):
+    if cls in ("p", "q"):
+        # payloads without drop glue: destruction is not observable, the drop records of the oracle are erased
+        line = re.sub(r" (LATE-)?d\d+", "", line)
+        return re.sub(r"END leak=\[[\d,_]*\] dbl=\[[\d,_]*\]", "END leak=[] dbl=[]", line)
     return zst_end_canon(mask_zst(line)) if cls == "z" else line
 
 
